@@ -305,6 +305,10 @@ class Model:
             elif a[0] == "done+ns":
                 self.done()
                 self.enter(a[1])
+            elif a[0] == "done+nsn":
+                self.done()
+                self.enter(a[1])
+                self._nested(now, act)
         self.req = False
 
     def _nested(self, now, act):
@@ -363,17 +367,22 @@ class Ctx:
         self.depth = 0
         self.allow_actions = True
         self.nest_limit = 2
+        self.main = None
         regs = [s["name"] for s in sh["states"] if s["kind"] != "default"]
         self.menu = [("none",)] + [("ns", n) for n in regs] + [("nsn", n) for n in regs] + [("done",)]
         if sh["auto"]:
             # an autonomous mode may end itself and still ask for a transition in the same call
-            self.menu += [("done+ns", n) for n in regs]
+            self.menu += [("done+ns", n) for n in regs] + [("done+nsn", n) for n in regs]
         self.kinds = {s["name"]: s["kind"] for s in sh["states"]}
 
     def on_done(self, sm):
+        if self.main is not None and sm is not self.main:
+            return
         self.events.append(("done",))
 
     def on_call(self, sm, nm, tag, kw):
+        if self.main is not None and sm is not self.main:
+            return  # the sibling instance: passive, not part of the observation
         self.events.append(("call", nm, tag, {k: (F(v) if k != "initial_call" else v) for k, v in kw.items()}))
         can = self.allow_actions and self.kinds[nm] != "default" and self.depth < self.nest_limit and (self.maxdev is None or self.dev < self.maxdev)
         menu = self.menu if can else self.menu[:1]
@@ -395,6 +404,13 @@ class Ctx:
         elif a[0] == "done+ns":
             sm.done()
             sm.next_state(a[1])
+        elif a[0] == "done+nsn":
+            sm.done()
+            self.depth += 1
+            try:
+                sm.next_state_now(a[1])
+            finally:
+                self.depth -= 1
 
 
 def op_menu(sh, period_open=None, seen_enable=None):
@@ -432,10 +448,10 @@ def alt_duration(orig):
 class Exec:
     """Result of one execution."""
 
-    __slots__ = ("trace", "err", "key", "nops", "model", "nest")
+    __slots__ = ("trace", "err", "key", "nops", "model", "nest", "sibling")
 
 
-def run_execution(sh, ch, nops, maxdev, want_key=False, actions_from=0, opset=None, nest=True):
+def run_execution(sh, ch, nops, maxdev, want_key=False, actions_from=0, opset=None, nest=True, sibling=False):
     """Run `nops` operations (explorer-chosen) on a fresh real machine and on the model in lock step.
     Returns Exec; err = None or (observable, why, message) of the first disagreement."""
     from magicbot.magic_tunable import setup_tunables
@@ -449,6 +465,14 @@ def run_execution(sh, ch, nops, maxdev, want_key=False, actions_from=0, opset=No
     sm.logger = _LOGGER  # MagicRobot injects a logger into every component / mode
     name = env.fresh_name()
     setup_tunables(sm, name)
+    sib = None
+    if sibling:
+        # a second instance of the very same class lives next to the machine under test and is kept busy; nothing it
+        # does may be visible in the machine under test (its state functions are passive and are not logged)
+        sib = cls()
+        sib.logger = _LOGGER
+        setup_tunables(sib, env.fresh_name("sib"))
+        ctx.main = sm
     ntinst = env.nt()
     base = f"/components/{name}/state/"
     sub_cs = ntinst.getStringTopic(base + "current_state").subscribe("<unset>")
@@ -474,7 +498,21 @@ def run_execution(sh, ch, nops, maxdev, want_key=False, actions_from=0, opset=No
         model.events = []
         crashed = None
         now = None
+        if sib is not None:
+            try:
+                if sh["auto"]:
+                    if k % 3 == 0:
+                        sib.on_enable()
+                    sib.on_iteration(0.0)
+                else:
+                    if k % 3 != 2:
+                        sib.engage()
+                    sib.execute()
+            except Exception as e:  # noqa
+                crashed = e
         try:
+            if crashed is not None:
+                raise crashed
             if op[0] in ("exec", "iter"):
                 adv = lt if op[1] == LONG else op[1]
                 env.advance(adv)
@@ -553,6 +591,7 @@ def run_execution(sh, ch, nops, maxdev, want_key=False, actions_from=0, opset=No
     ex.err = step_err
     ex.nops = nops
     ex.nest = nest
+    ex.sibling = sibling
     ex.model = model
     if want_key and step_err is None:
         ex.key = (model.key(env.now(), lt + 4), impl_fingerprint(sm), period_open, seen_enable)
@@ -807,16 +846,16 @@ def _recorder(sh, res, want, maxdev_default, seed):
             obs, why, msg = ex.err
             ps = props_of(obs, why, sh["auto"]) & want
             if ps:
-                rp = dict(engine="sm", shape=sh, choices=list(ch.choices), nops=ex.nops, maxdev=md, opset=opset, nest=ex.nest, mode=mode, failing_step=len(ex.trace) - 1, trace=_jsonable(ex.trace), source=class_source(sh))
+                rp = dict(engine="sm", shape=sh, choices=list(ch.choices), nops=ex.nops, maxdev=md, opset=opset, nest=ex.nest, sibling=ex.sibling, mode=mode, failing_step=len(ex.trace) - 1, trace=_jsonable(ex.trace), source=class_source(sh))
                 res.violation(f"{obs}:{why}", f"shape {sh['name']} ({mode}), step {len(ex.trace)-1} {ex.trace[-1]['op']}: {msg}\n" + fmt_trace(ex.trace), rp)
         for (p, clause, msg) in monitors(sh, ex.trace):
             if p in want:
-                rp = dict(engine="sm", shape=sh, choices=list(ch.choices), nops=ex.nops, maxdev=md, opset=opset, nest=ex.nest, mode=mode, trace=_jsonable(ex.trace), source=class_source(sh))
+                rp = dict(engine="sm", shape=sh, choices=list(ch.choices), nops=ex.nops, maxdev=md, opset=opset, nest=ex.nest, sibling=ex.sibling, mode=mode, trace=_jsonable(ex.trace), source=class_source(sh))
                 res.violation(f"monitor:{clause}", f"shape {sh['name']} ({mode}): {msg}\n" + fmt_trace(ex.trace), rp)
         res.outcome(core.stable_hash(norm_obs(ex.trace)))
         counter[0] += 1
         if counter[0] % rerun_every == rerun_off:
-            ex2 = run_execution(sh, core.Chooser(ch.choices), ex.nops, md, opset=opset, nest=getattr(ex, "nest", True))
+            ex2 = run_execution(sh, core.Chooser(ch.choices), ex.nops, md, opset=opset, nest=getattr(ex, "nest", True), sibling=getattr(ex, "sibling", False))
             a, b = norm_obs(ex.trace), norm_obs(ex2.trace)
             if a != b:
                 diff = [(x, y) for x, y in zip(a, b) if x != y][:2]
@@ -838,7 +877,7 @@ def explore_level(item):
     found = []
     for prefix in item["prefixes"]:
         def run(ch):
-            ex = run_execution(sh, ch, d + 1, item.get("maxdev"), want_key=True, opset=item.get("opset"), nest=item.get("nest", True))
+            ex = run_execution(sh, ch, d + 1, item.get("maxdev"), want_key=True, opset=item.get("opset"), nest=item.get("nest", True), sibling=item.get("sibling", False))
             record(ex, ch, item.get("label", "bfs"), item.get("maxdev"), item.get("opset"))
             res.transitions += 1
             if ex.key is not None:
@@ -859,7 +898,7 @@ def initial_key(sh):
     return run_execution(sh, core.Chooser(()), 0, None, want_key=True).key
 
 
-def bfs_all(pool, res, shapes_depths, pid, seed, probe_every, opset=None, maxdev=None, label="bfs", nest=False):
+def bfs_all(pool, res, shapes_depths, pid, seed, probe_every, opset=None, maxdev=None, label="bfs", nest=False, sibling=False):
     """Level-synchronous BFS with canonical-state merging for several shapes at once; the frontier of each
     level is expanded by the worker pool, de-duplication happens here."""
     seen = {}
@@ -884,7 +923,7 @@ def bfs_all(pool, res, shapes_depths, pid, seed, probe_every, opset=None, maxdev
                 continue
             chunk = 12
             for k in range(0, len(fr), chunk):
-                items.append(dict(shape=byname[n], prefixes=fr[k:k + chunk], depth=level, props=[pid], seed=seed, probes=pending_probes[n][:4] if k == 0 else (), opset=opset, maxdev=maxdev, label=label, nest=nest))
+                items.append(dict(shape=byname[n], prefixes=fr[k:k + chunk], depth=level, props=[pid], seed=seed, probes=pending_probes[n][:4] if k == 0 else (), opset=opset, maxdev=maxdev, label=label, nest=nest, sibling=sibling))
             pending_probes[n] = []
         if not items:
             break
@@ -1032,7 +1071,7 @@ def fmt_trace(trace):
 TIMING_OPS = ["exec", "iter", "setdur", "on_enable", ("engage", None, False), ("done",), ("on_disable",)]
 
 
-def run_check(pid, tier, seed, shapes, nops, maxdev, bfs_depth, rule_extra="", probe_every=0, sig_names=(), timing_depth=0, light_names=(), light_nops=3, light_bfs=3, light_timing=8):
+def run_check(pid, tier, seed, shapes, nops, maxdev, bfs_depth, rule_extra="", probe_every=0, sig_names=(), timing_depth=0, light_names=(), light_nops=3, light_bfs=3, light_timing=8, sibling_depth=10):
     t0 = time.time()
     items = []
     bfs = []
@@ -1062,6 +1101,9 @@ def run_check(pid, tier, seed, shapes, nops, maxdev, bfs_depth, rule_extra="", p
         if timing_depth:
             tshapes = [(sh, timing_depth if sh["name"] not in light else light_timing) for sh in shapes if any(st["kind"] == "timed" for st in sh["states"]) and sh["name"] not in sig_names]
             bfs_all(pool, res, tshapes, pid, seed, 0, opset=TIMING_OPS, maxdev=0, label="timing_bfs")
+            progress("timing BFS done; timing BFS next to a busy sibling instance of the same class")
+            sshapes = [(sh, min(depth, sibling_depth)) for sh, depth in tshapes if sh["name"] not in light]
+            bfs_all(pool, res, sshapes, pid, seed, 0, opset=TIMING_OPS, maxdev=0, label="sibling_timing_bfs", sibling=True)
     res.bounds.update(flat_ops=nops, flat_deviation_bound=maxdev, bfs_depth=bfs_depth, shapes=len(shapes), tick="1/64 s", advances=list(ADVANCES), timing_bfs_depth=timing_depth, generated_family_shapes=len(light), family_flat_ops=light_nops if light else None, family_flat_deviation_bound=1 if light else None, family_bfs_depth=light_bfs if light else None, family_timing_bfs_depth=light_timing if light else None)
     rule = (
         "for each generated machine shape: every sequence of `flat_ops` external operations (engage variants, done, on_disable, "
@@ -1101,7 +1143,7 @@ def pytest_source(rp, pid="", sig=""):
     L.append("TICK_US = 15625  # 1/64 s: exact in binary floating point")
     L.append("CALLS = []")
     L.append(f"SCRIPT = {script!r}  # what each state-function invocation does, in invocation order\n")
-    L.append("class _Ctx:\n    def on_done(self, sm):\n        CALLS.append(('done',))\n    def on_call(self, sm, name, tag, kw):\n        CALLS.append((name, dict(kw)))\n        act = SCRIPT.pop(0) if SCRIPT else ['none']\n        if act[0] == 'ns':\n            sm.next_state(act[1])\n        elif act[0] == 'nsn':\n            sm.next_state_now(act[1])\n        elif act[0] == 'done':\n            sm.done()\n        elif act[0] == 'done+ns':\n            sm.done()\n            sm.next_state(act[1])\n\n_ctx = _Ctx()\n")
+    L.append("class _Ctx:\n    def on_done(self, sm):\n        CALLS.append(('done',))\n    def on_call(self, sm, name, tag, kw):\n        CALLS.append((name, dict(kw)))\n        act = SCRIPT.pop(0) if SCRIPT else ['none']\n        if act[0] == 'ns':\n            sm.next_state(act[1])\n        elif act[0] == 'nsn':\n            sm.next_state_now(act[1])\n        elif act[0] == 'done':\n            sm.done()\n        elif act[0] == 'done+ns':\n            sm.done()\n            sm.next_state(act[1])\n        elif act[0] == 'done+nsn':\n            sm.done()\n            sm.next_state_now(act[1])\n\n_ctx = _Ctx()\n")
     L.append(rp.get("source") or class_source(sh))
     L.append("\ndef test_replay():")
     L.append("    hs.pauseTiming()\n    rem = wpilib.RobotController.getFPGATime() % TICK_US\n    if rem:\n        hs.stepTimingAsync(TICK_US - rem)")
@@ -1166,7 +1208,7 @@ def replay(path):
     for s in sh["states"]:
         s["sig"] = tuple(s["sig"])
     ch = core.Chooser(r["choices"])
-    ex = run_execution(sh, ch, r["nops"], r.get("maxdev"), opset=[tuple(o) if isinstance(o, list) else o for o in r["opset"]] if r.get("opset") else None, nest=r.get("nest", True))
+    ex = run_execution(sh, ch, r["nops"], r.get("maxdev"), opset=[tuple(o) if isinstance(o, list) else o for o in r["opset"]] if r.get("opset") else None, nest=r.get("nest", True), sibling=r.get("sibling", False))
     print(class_source(sh))
     print(fmt_trace(ex.trace))
     mon = monitors(sh, ex.trace)
